@@ -324,6 +324,8 @@ WrongRev(ch, kind) ==
        [] kind = "otherchan" -> MCompleteWith(ch, 0, k, Bf(0, k, "rl"), kind)
        [] kind = "bothwrong" -> MCompleteWith(ch, ch, k + 1, Bf(ch, k + 1, "rl"), kind)
        \* a valid pair over the old state's SECRET with a later canonical index: another lock, no state's pair
+       \* a foreign pair with the blinding factor shifted by the difference of the locks (opens only if h = g)
+       [] kind = "shiftedbf"  -> MCompleteWith(ch, 0, k, <<"shifted", ch, k>>, kind)
        [] kind = "laterindex" -> MCompleteWith(ch, ch, 0 - 1, Bf(ch, k, "rl"), kind)
        [] OTHER -> FALSE
   /\ UNCHANGED <<cust, led, c2m, vbs, revealed, nonces, closed, spent>>
